@@ -41,7 +41,19 @@ def main(argv=None):
     try:
         mod = importlib.import_module('pmcv.rules.%s' % prop.lower())
         prog = Program(a.repo)
-        results, explanation, assumptions, extra = mod.run(prog, a.tier, seed)
+        try:
+            results, explanation, assumptions, extra = mod.run(prog, a.tier,
+                                                               seed)
+        except (Inconclusive, AnalysisError) as e:
+            # the property's own rules could not even be set up (an anchor
+            # outside the interpreted fragment): no verdict from them, but
+            # the rules that look at every function still run -- a finding
+            # of theirs stands on its own
+            kind = 'INCONCLUSIVE' if isinstance(e, Inconclusive) else \
+                'ANALYSIS-ERROR'
+            results, explanation, assumptions = [], \
+                'the rules of the property could not be set up', []
+            extra = {'undecided_rules': ['%s %s' % (kind, e)]}
         # rules about every function of the files the property relies on
         from pmcv import common
         cres, cund = common.common_rules(prog, prop)
